@@ -53,8 +53,8 @@ ENSURES(G_cfed == FIN_END)
 ENSURES((G_tk >= 64 * G_nb0 && G_tk < FIN_END) IMPLIES G_cseen == 1)
 ENSURES((G_tk >= 64 * G_nb0 && G_tk < FIN_L) IMPLIES G_cbyte == G_blk0[G_tk - 64 * G_nb0])
 ENSURES(G_tk == FIN_L IMPLIES G_cbyte == 0x80)
-ENSURES((G_tk > FIN_L && G_tk + 8 < FIN_END) IMPLIES G_cbyte == 0)
-ENSURES((G_tk + 8 >= FIN_END && G_tk < FIN_END) IMPLIES G_cbyte == (uint8_t)((8 * FIN_L) >> (8 * (FIN_END - 1 - G_tk))))
+ENSURES((G_tk > FIN_L && G_tk < FIN_END - 8) IMPLIES G_cbyte == 0)
+ENSURES((G_tk >= FIN_END - 8 && G_tk < FIN_END) IMPLIES G_cbyte == (uint8_t)((8 * FIN_L) >> (8 * (FIN_END - 1 - G_tk))))
 ENSURES(verif_gk < 8 IMPLIES (digest[4 * verif_gk] == (uint8_t)(ctx->digest[verif_gk] >> 24) && digest[4 * verif_gk + 1] == (uint8_t)(ctx->digest[verif_gk] >> 16)
 	&& digest[4 * verif_gk + 2] == (uint8_t)(ctx->digest[verif_gk] >> 8) && digest[4 * verif_gk + 3] == (uint8_t)(ctx->digest[verif_gk])))
 ;
